@@ -1,0 +1,90 @@
+//go:build verif
+
+// Contracts for the govc verifier (see /verif/DESIGN.md). Comment-only file: with the
+// "verif" build tag off it is not compiled; with it on it contains only the package clause.
+
+package layer
+
+//@ uf hasPrefix(string, string) bool
+//@ func strings.HasPrefix
+//@   trusted
+//@   ensures result == hasPrefix(s, prefix)
+//@ axiom forall s string, p string :: hasPrefix(s, p) ==> len(s) >= len(p)
+
+// ---- inode numbering: unique and stable within a layer, never a reserved number ----
+//@ func (fs *fs) inodeOfID
+//@   props C07
+//@   ensures[C07] id > 4294967292 ==> err != nil
+//@   ensures[C07] id <= 4294967292 ==> err == nil && result0 == fs.baseInode * 4294967296 + 3 + id
+//@ func (fs *fs) inodeOfState
+//@   props C07
+//@   ensures[C07] result == fs.baseInode * 4294967296 + 1
+//@ func (fs *fs) inodeOfStatFile
+//@   props C07
+//@   ensures[C07] result == fs.baseInode * 4294967296 + 2
+
+// ---- attribute conversion ----
+// S_IFMT = 61440, S_IFDIR = 16384, S_IFCHR = 8192, S_IFBLK = 24576, S_IFREG = 32768, S_IFIFO = 4096, S_IFLNK = 40960, S_IFSOCK = 49152
+//@ func fileModeToSystemMode
+//@   props C07,C02
+//@   ensures[C02,C07] result & 511 == m & 511
+//@   ensures[C02,C07] (m & os.ModeType) == os.ModeDir ==> (result & 61440) == 16384
+//@   ensures[C02,C07] (m & os.ModeType) == os.ModeSymlink ==> (result & 61440) == 40960
+//@   ensures[C02,C07] (m & os.ModeType) == os.ModeNamedPipe ==> (result & 61440) == 4096
+//@   ensures[C02,C07] (m & os.ModeType) == os.ModeSocket ==> (result & 61440) == 49152
+//@   ensures[C02,C07] (m & os.ModeType) == os.ModeDevice ==> (result & 61440) == 24576
+//@   ensures[C02,C07] (m & os.ModeType) == os.ModeDevice + os.ModeCharDevice ==> (result & 61440) == 8192
+//@   ensures[C02,C07] (m & os.ModeType) == 0 ==> (result & 61440) == 32768
+//@   ensures[C02,C07] ((m & os.ModeSetuid) != 0 <==> (result & 2048) != 0) && ((m & os.ModeSetgid) != 0 <==> (result & 1024) != 0) && ((m & os.ModeSticky) != 0 <==> (result & 512) != 0)
+//@ func entryToWhAttr
+//@   props C07
+//@   requires out != nil
+//@   ensures[C07] out.Mode == 8192 && out.Rdev == 0 && out.Size == 0 && out.Ino == ino && result.Mode == 8192 && result.Ino == ino
+//@ func entryToAttr
+//@   props C07,C02
+//@   requires out != nil
+//@   ensures[C02,C07] out.Ino == ino && result.Ino == ino && result.Mode == out.Mode
+//@   ensures[C02,C07] out.Nlink >= 1 && (e.NumLink >= 1 && e.NumLink < 4294967296 ==> out.Nlink == e.NumLink)
+//@   ensures[C02,C07] (e.Mode & os.ModeSymlink) != 0 ==> out.Size == len(e.LinkName)
+//@   ensures[C02,C07] (e.Mode & os.ModeSymlink) == 0 && e.Size >= 0 ==> out.Size == e.Size
+
+// the metadata reader handed out by a layer's reader is never nil; state reporting is logging only
+//@ type metadata.Reader
+//@   nonnil
+//@ func (s *state) report
+//@   trusted
+//@   ensures true
+//@ func fs/metrics/common.MeasureLatencyInMicroseconds
+//@   trusted
+//@   ensures true
+//@ func fs/metrics/common.MeasureLatencyInMilliseconds
+//@   trusted
+//@   ensures true
+
+// ---- lookup hiding rules ----
+//@ func (n *node) Lookup
+//@   props C07
+//@   requires n.fs != nil && out != nil && n.fs.r != nil && n.fs.s != nil
+//@   assume before "ino, err := n.fs.inodeOfID(tn.id)" : tn != nil
+//@   ensures[C07] n.id == n.fs.rootID && (name == estargz.PrefetchLandmark || name == estargz.NoPrefetchLandmark) ==> result0 == nil && result1 == syscall.ENOENT
+//@   ensures[C07] hasPrefix(name, whiteoutPrefix) ==> result0 == nil && result1 == syscall.ENOENT
+
+// ---- listing rules ----
+// ForeachChild callback of readdir: "." / "..", landmarks in the root and every ".wh."-prefixed name are never listed as
+// such; a normal entry is listed under its own name with the converted mode.
+//@ func (n *node) readdir$1
+//@   props C07
+//@   requires n != nil && n.fs != nil && normalEnts != nil && whiteouts != nil
+//@   requires forall k string :: k in whiteouts ==> hasPrefix(k, whiteoutPrefix)
+//@   ensures[C07] forall k string :: k in whiteouts ==> hasPrefix(k, whiteoutPrefix)
+//@   ensures[C07] (name == "." || name == ".." || hasPrefix(name, whiteoutPrefix) || (isRoot && (name == estargz.PrefetchLandmark || name == estargz.NoPrefetchLandmark))) ==> len(ents) == old(len(ents))
+//@   ensures[C07] len(ents) == old(len(ents)) || (len(ents) == old(len(ents)) + 1 && ents[len(ents)-1].Name == name)
+//@   ensures[C07] hasPrefix(name, whiteoutPrefix) && name != whiteoutOpaqueDir && name != "." && name != ".." && !(isRoot && (name == estargz.PrefetchLandmark || name == estargz.NoPrefetchLandmark)) ==> name in whiteouts && whiteouts[name] == id
+
+// whiteouts become 0/0 character devices named after their target (the marker name minus ".wh.")
+//@ func (n *node) readdir
+//@   props C07
+//@   requires n.fs != nil && n.fs.r != nil && n.fs.s != nil
+//@   callbackinv "ForeachChild" : forall k string :: k in whiteouts ==> hasPrefix(k, whiteoutPrefix)
+//@   loop 0 invariant[C07] forall k string :: k in whiteouts ==> hasPrefix(k, whiteoutPrefix)
+//@   loop 0 step[C07] len(ents) == prev(len(ents)) || (len(ents) == prev(len(ents)) + 1 && ents[len(ents)-1].Name == w[len(whiteoutPrefix):] && ents[len(ents)-1].Mode == 8192)
